@@ -28,12 +28,12 @@ func TestMain(m *testing.M) { hx.Main(m) }
 
 // The first byte of a stream selects what layer4 does with the connection.
 type kind struct {
-	first    byte
-	name     string
-	depth    int  // bytes the route's matcher inspects (prefetched)
-	take     int  // bytes a non-terminal handler consumes before the connection falls through
-	fall     bool // reaches the wrapped listener
-	tls      bool
+	first byte
+	name  string
+	depth int  // bytes the route's matcher inspects (prefetched)
+	take  int  // bytes a non-terminal handler consumes before the connection falls through
+	fall  bool // reaches the wrapped listener
+	tls   bool
 }
 
 var kinds = []kind{
@@ -69,18 +69,18 @@ func wrapperJSON() []byte {
 }
 
 type connPlan struct {
-	Kind   int
-	Size   int // bytes the client sends (incl. the selector byte); at least the matcher depth for fall-through kinds
-	Cuts   []int
-	Tag    uint64
+	Kind int
+	Size int // bytes the client sends (incl. the selector byte); at least the matcher depth for fall-through kinds
+	Cuts []int
+	Tag  uint64
 }
 
 type batch struct {
-	Conns       []connPlan
-	AcceptDelay time.Duration // pause of the consumer between two Accepts
+	Conns        []connPlan
+	AcceptDelay  time.Duration // pause of the consumer between two Accepts
 	InitialStall time.Duration // the consumer starts accepting only after this long (fills the hand-over channel)
-	EarlyClose  bool          // the listener is closed while connections are still in flight
-	CloseAfter  time.Duration
+	EarlyClose   bool          // the listener is closed while connections are still in flight
+	CloseAfter   time.Duration
 	// NoConsumer: nobody calls Accept before the listener is closed (more connections pend than the hand-over channel holds)
 	NoConsumer bool
 }
@@ -209,10 +209,10 @@ func runBatch(t hx.TB, b batch) {
 	}()
 
 	type clientRes struct {
-		local      string
-		sawClose   bool
-		echoed     []byte
-		err        string
+		local    string
+		sawClose bool
+		echoed   []byte
+		err      string
 	}
 	results := make([]clientRes, len(b.Conns))
 	var clients sync.WaitGroup
